@@ -183,7 +183,7 @@ structure Env where
 inductive Event
   | metaWrite (m : Meta)
   | before (i : Nat) (st : Option Bytes)
-  | call (i : Nat)
+  | call (i : Nat) (cur : SV)     -- Migrate called; `cur` = migrations applied at that moment
   | ret (i : Nat) (st : Option Bytes) (err : ErrK) (cancelled : Bool)
   | save (i : Nat) (st : Bytes)
   | apply (i : Nat)
@@ -213,7 +213,7 @@ def runMigration (cfg : Cfg) (env : Env) (last : SV) (i : Nat) (s : RunSt) : Run
   if b.beforeFails then (s, some .errBefore) else
   -- migration.Migrate(ctx, …)
   if s.dead env then (s, some .crashed) else
-  let s := s.tickEv (.call i)
+  let s := s.tickEv (.call i s.cur)
   if s.dead env then (s, some .crashed) else     -- died inside Migrate
   let c := s.cancelled env
   let s := { s with log := .ret i b.st b.err c :: s.log }
